@@ -263,6 +263,54 @@ CHECKS["C20"] = (
 NOT_YET = "not claimed in this snapshot: its model/theorems/driver are not built yet (DESIGN.md §9 build order); no check is registered rather than a weaker technique"
 
 
+# what rounds 8-10 of the seeded-change protocol added to the models (appended to the descriptions above)
+LATER = {
+    "C01": " Claims inside signed assertions (sub / azp / client_id naming someone else) never decide the identity (C01_assertion_identity, "
+           "C01_subject_never_identity); credential histories - re-registration under the same id, replaced / given-up keys, rotated "
+           "secrets, key jars holding several symmetric keys, kid selection - with C01_current_secret_only, C01_registration_in_force, "
+           "C01_rotation_sound and the refuted witness of the recorded finding request_param-superseded-secret.",
+    "C02": " Front-channel artefacts (AuthorizeRT) and providers without / with partial per-client usage rules are in the configuration space.",
+    "C03": " Histories under partial per-client usage rules; verified logout with time passing between login and logout.",
+    "C04": " The asker of an introspection request only gates whether an answer is given (may_ask); every statement of the answer is the "
+           "minting session's for every admitted asker (C04_introspection_asker_independent, C04_introspection_answer_is_owners); "
+           "third parties with enforce_audience_restriction off, audience members, client-dependent user data.",
+    "C05": " Tokens minted by the authorization endpoint itself (AuthorizeRT: response types with token / id_token) carry the grant's "
+           "filtered scope (C05_front_channel_bounded), resource indicators never add scopes to a token "
+           "(C05_resource_scopes_never_reach_tokens); two recorded findings about scope STATEMENTS of the resource-indicator feature "
+           "with refuted witnesses (authz-response-states-resource-scope, token-response-scope-under-resource-policy).",
+    "C06": " Redirect URI LISTS through the real registration endpoint: store_list = mapM store1 (C06_registration_is_a_map, "
+           "C06_registration_neighbours_irrelevant, C06_registration_order_irrelevant), whatever is served was matched against "
+           "the stored form of one URI of the list (C06_registered_served_own); Model/RegFlow.v composes C19's verify_one with the matcher.",
+    "C07": " Release points are also judged against history-dependent liveness (tokens dead by rotation + code replay, revocation chains).",
+    "C08": " ID Token SEQUENCES over several sessions: after any history with fresh begins an ID Token accepted for state s - by "
+           "authorization, token or refresh response - carries the nonce sent with s (C08_nonce_history, C08_record_nonce_kept, "
+           "C08_refresh_service) on the repaired RP model (the record's nonce is never replaced; token / refresh compare with it).",
+    "C09": " Back-channel responses (token, refresh, userinfo, routed) naming another session: the record updated is the one of the "
+           "request's state for every response content (C09_backchannel_key, C09_backchannel_recorded, "
+           "C09_backchannel_named_state_untouched, C09_refresh_idtoken_bound).",
+    "C11": " Set rules (at most one of / all or none of / X comes with Y) over the FULL presence table of every such rule in the message "
+           "classes: has_none_or_one_of transcribed and proved equivalent to count <= 1 for every list, permutation invariant; the CIBA "
+           "hint rule's member list regenerated from the source (set_rule_calls in Gen/Schema.v).",
+    "C13": " Session look-ups through the session id after a restore, cookies across a restore, API revocations / logout on both twins, "
+           "id() census of shared objects: sd_dump / sd_load model with C13_restore_loses_sharing, "
+           "C13_restore_equivalent_on_branch_keys, C13_lookup_by_session_id_restored and two refuted statements kept visible.",
+    "C15": " The interactive log-in round trip: resume = to_query -> from_query over the real query-string model, extension parameters "
+           "survive (C15_resume_extension_parameter_survives), the recorded pair after resume is the request's "
+           "(C15_resumed_recorded_is_request_pair), token-endpoint iff over resumed flows; refuted variant for a page written from the "
+           "declared parameters only.",
+    "C16": " Algorithms registered through the real registration endpoint: after an accepted registration of an advertised algorithm the "
+           "permitted set is exactly that algorithm (C16_registered_exact, C16_registered_only_requested), a non-advertised one is "
+           "dropped and the registration response says so (C16_registered_dropped).",
+    "C17": " Key SOURCE of a handler (given / generated from a draw supply): independently built handlers with library-generated keys "
+           "refuse each other's cookies in every mode (C17_foreign_keys_refused, C17_independent_handlers_refuse under the explicit "
+           "hypothesis draws_distinct, tied to the code by chk_fresh on observed key material).",
+    "C18": " Salt-file life cycle over three provider instances (C18_salt_file_round_trip, "
+           "C18_same_configuration_same_subs_on_every_instance).",
+    "C19": " The real random supply (secret(), random_client_id, registration tokens) is exercised with the clock standing still; custom "
+           "scheme redirect URIs are stored as base + query (model follows repair d77dc7b).",
+}
+
+
 def main():
     props = [json.loads(l)["id"] for l in open(os.path.join(VERIF, "properties.jsonl"))]
     checks = []
@@ -270,6 +318,7 @@ def main():
         if pid not in CHECKS:
             continue
         tech, text, note, ref = CHECKS[pid]
+        text = text + LATER.get(pid, "")
         checks.append({
             "property_id": pid,
             "quick_cmd": "./check %s --tier quick" % pid,
